@@ -60,9 +60,14 @@ def run_case(chk, cli, pool, case, dist, kf):
             os.chmod(fp, mode)
         if case.get("pre_out") == "dir":
             os.makedirs(os.path.join(sb, case["out"]), exist_ok=True)
+        elif case.get("pre_out") == "file":
+            with open(os.path.join(sb, case["out"]), "w") as f:
+                f.write("an existing regular file\n")
         before = snapshot(sb)
-        argv = [cli] + [os.path.join("..", "in", x) for x in argv_in] + case.get("argv_in_extra", []) + case["argv"]
-        p = subprocess.run(argv, cwd=os.path.join(sb, "work"), env=dict(os.environ, TMPDIR=os.path.join(sb, "tmp")),
+        cwd = os.path.join(sb, case.get("cwd", "work"))       # where grcov is started: elsewhere, or inside the input (build) directory
+        argv = ([cli] + [os.path.relpath(os.path.join(sb, "in", x), cwd) for x in argv_in] + case.get("argv_in_extra", [])
+                + [x.replace("@SB@", sb) for x in case["argv"]])
+        p = subprocess.run(argv, cwd=cwd, env=dict(os.environ, TMPDIR=os.path.join(sb, "tmp")),
                            capture_output=True, text=True, timeout=180)
         after = snapshot(sb)
         chk.count()
@@ -224,6 +229,17 @@ exit 0
         for argv, o, pre in outs:
             out.append({"inputs": inp, "files": tools, "argv": ["--binary-path", "../bin/app", "--llvm-path", "../tools"] + argv, "out": o, "pre_out": pre, "tag": "profiles-" + tag})
         out.append({"inputs": inp, "files": tools, "argv": ["-b", "../bin", "--llvm-path", "../tools", "--threads", "3", "-t", "covdir", "-o", "../out/o.json"], "out": "out/o.json", "tag": "profiles-" + tag})
+    # several output types at once: -o an existing directory / a missing directory / a regular file; started from elsewhere and from inside the
+    # input (build) directory as in `cd build && grcov . ...`.  Whatever grcov makes of a bad -o (it refuses), nothing may appear in the working
+    # directory, the inputs or the canary: only TMPDIR and the requested location
+    build = [{"kind": "dir", "name": "build", "entries": [["cov/a.info", n["info_a"], "info"], ["src/a.c", foo, "c"], ["src/b.c", foo, "c"], ["cov/b.info", n["info_b"], "info"],
+                                                         ["obj/file.gcno", n["llvm_gcno_file"], "gcno"], ["obj/file.gcda", n["llvm_gcda_file"], "gcda"]]}]
+    for types in ("html,lcov", "lcov,covdir,html,markdown", "markdown,html", "lcov,files"):
+        for o, pre in (("out/multi", "dir"), ("out/missing", None), ("out/afile", "file"), ("out/missing/deeper", None)):
+            for cwd in ("work", "in/build"):
+                out.append({"inputs": build, "cwd": cwd, "argv": ["--llvm", "-t", types, "-o", "@SB@/" + o], "out": o, "pre_out": pre, "tag": "multi-output"})
+        out.append({"inputs": build, "cwd": "in/build", "argv": ["--llvm", "-t", types, "-o", "../../out/rel-missing"], "out": "out/rel-missing", "tag": "multi-output"})
+        out.append({"inputs": build, "cwd": "in/build", "argv": ["--llvm", "-t", types], "out": "in/build/html" if "html" in types else None, "tag": "multi-output-no-o"})
     # hostile archives
     long = "d" * 100 + "/" + "e" * 100 + "/" + "f" * 90
     hostile_sets = [
@@ -276,7 +292,7 @@ def run(chk):
     chk.cov["rule"] = ("CLI runs inside a fresh sandbox tree (inputs, a canary sibling directory, the output location, TMPDIR, the working directory), full snapshot "
                        "(paths, sizes, SHA-256, link targets) before and after: 12 output configurations (lcov, html, html into an existing dir, covdir, files, cobertura, "
                        "cobertura-pretty, markdown, ade, coveralls, four types into one directory, stdout) x {benign dir+zip+plain inputs with --llvm, tracefiles whose SF paths are "
-                       "relative with '..', absolute, or normalise outside, with and without -s}; GCC path from directories and zips (gcov runs); source-based coverage with stand-in llvm-profdata/llvm-cov and profiles as plain arguments, in a directory, in a zip and mixed; recorded paths with backslashes whose literal file exists under -s and the working directory (html, multi-output); symlinked input directory and links "
+                       "relative with '..', absolute, or normalise outside, with and without -s}; several output types with -o an existing / missing / nested missing directory or a regular file, started from elsewhere and from inside the input directory; GCC path from directories and zips (gcov runs); source-based coverage with stand-in llvm-profdata/llvm-cov and profiles as plain arguments, in a directory, in a zip and mixed; recorded paths with backslashes whose literal file exists under -s and the working directory (html, multi-output); symlinked input directory and links "
                        "inside an input directory; hostile zips (member names with '..', absolute, '..' that stays inside, 295-byte names, duplicates, hostile .info/.xml names; with and "
                        "without --llvm).  Every changed path must lie in TMPDIR or at the output location, TMPDIR must be empty after exit 0; Model/Confine.v's verdict "
                        "on every hostile member name is evaluated (safe => inside); unsafe members must leave no trace outside (regression guard for the fixed zip-slip).  non-trivial = run with distinct (arguments, changes)")
